@@ -168,10 +168,20 @@ func verifC36ID(label string, dil uint64) OneTimeSignatureIdentifier {
 }
 
 func verifC36Setup(ndel int, uf bool) *verifC36World {
-	return verifC36SetupDil(ndel, uf, 1, vr.Param(2, 4))
+	if uf {
+		// arbitrary injective functions are expensive in the solver: dilution <= 3
+		return verifC36SetupDil(ndel, uf, 1, vr.Param(2, 3), 0)
+	}
+	return verifC36SetupDil(ndel, uf, 1, vr.Param(2, 4), 0)
 }
 
-func verifC36SetupDil(ndel int, uf bool, dilLo, dilHi int) *verifC36World {
+// part splits the histories by where the advances land relative to the first
+// batch (so that the parts run as parallel harnesses): 0 = anywhere,
+// 1 = first advance before the first batch, 2 = first advance in the first
+// batch and second advance not beyond it, 3 = first advance in the first batch
+// and second beyond it, 4 = first advance beyond the first batch. Parts 1-4
+// partition all histories.
+func verifC36SetupDil(ndel int, uf bool, dilLo, dilHi int, part int) *verifC36World {
 	verifC36UF = uf
 	verifC36Keys = nil
 	verifC36Rand.n = 0
@@ -185,6 +195,18 @@ func verifC36SetupDil(ndel int, uf bool, dilLo, dilHi int) *verifC36World {
 	names := []string{"cur1", "cur2", "cur3"}
 	for i := 0; i < ndel; i++ {
 		c := verifC36ID(names[i], w.dil)
+		switch {
+		case i == 0 && part == 1:
+			vr.Assume(c.Batch < w.start)
+		case i == 0 && (part == 2 || part == 3):
+			vr.Assume(c.Batch == w.start)
+		case i == 0 && part == 4:
+			vr.Assume(c.Batch > w.start)
+		case i == 1 && part == 2:
+			vr.Assume(c.Batch <= w.start)
+		case i == 1 && part == 3:
+			vr.Assume(c.Batch > w.start)
+		}
 		w.cur = append(w.cur, c)
 		w.s.DeleteBeforeFineGrained(c, w.dil)
 	}
@@ -301,8 +323,8 @@ func (a *verifC36Adversary) signature(label string, data []byte) ed25519Signatur
 	return cands[verifC36Pick(label+".compute", 2)]
 }
 
-func verifC36Compromise(ndel int, dilLo, dilHi int) {
-	w := verifC36SetupDil(ndel, false, dilLo, dilHi)
+func verifC36Compromise(ndel int, dilLo, dilHi int, part int) {
+	w := verifC36SetupDil(ndel, false, dilLo, dilHi, part)
 	adv := &verifC36Adversary{}
 	own, ownSK := verifC36GenKey(nil)
 	adv.learnKey(ephemeralSubkey{PK: own, SK: ownSK})
@@ -331,12 +353,34 @@ func verifC36Compromise(ndel int, dilLo, dilHi int) {
 }
 
 //verif:harness prop=C36 reach=done,forged-live unwind=12 budget=200 thorough.budget=2400
-func VerifC36CompromiseOneDelete() { verifC36Compromise(1, 1, vr.Param(2, 4)) }
+func VerifC36CompromiseOneDelete() { verifC36Compromise(1, 1, vr.Param(2, 4), 0) }
 
-// (two advances: split by key dilution so that the halves run in parallel)
+// (two advances: split by key dilution and by where the first advance lands,
+// so that the parts run in parallel)
 //
 //verif:harness prop=C36 reach=done,forged-live unwind=12 budget=200 thorough.budget=2400
-func VerifC36CompromiseTwoDeletesDil1() { verifC36Compromise(2, 1, 1) }
+func VerifC36CompromiseTwoDeletesDil1() { verifC36Compromise(2, 1, 1, 0) }
 
 //verif:harness prop=C36 reach=done,forged-live unwind=12 budget=200 thorough.budget=2400
-func VerifC36CompromiseTwoDeletesDil2() { verifC36Compromise(2, 2, vr.Param(2, 3)) }
+func VerifC36CompromiseTwoDeletesDil2a() { verifC36Compromise(2, 2, 2, 1) }
+
+//verif:harness prop=C36 reach=done,forged-live unwind=12 budget=200 thorough.budget=2400
+func VerifC36CompromiseTwoDeletesDil2b() { verifC36Compromise(2, 2, 2, 2) }
+
+//verif:harness prop=C36 reach=done,forged-live unwind=12 budget=200 thorough.budget=2400
+func VerifC36CompromiseTwoDeletesDil2c() { verifC36Compromise(2, 2, 2, 3) }
+
+//verif:harness prop=C36 reach=done,forged-live unwind=12 budget=200 thorough.budget=2400
+func VerifC36CompromiseTwoDeletesDil2d() { verifC36Compromise(2, 2, 2, 4) }
+
+//verif:harness prop=C36 tier=thorough reach=done,forged-live unwind=12 budget=200 thorough.budget=2400
+func VerifC36CompromiseTwoDeletesDil3a() { verifC36Compromise(2, 3, 3, 1) }
+
+//verif:harness prop=C36 tier=thorough reach=done,forged-live unwind=12 budget=200 thorough.budget=2400
+func VerifC36CompromiseTwoDeletesDil3b() { verifC36Compromise(2, 3, 3, 2) }
+
+//verif:harness prop=C36 tier=thorough reach=done,forged-live unwind=12 budget=200 thorough.budget=2400
+func VerifC36CompromiseTwoDeletesDil3c() { verifC36Compromise(2, 3, 3, 3) }
+
+//verif:harness prop=C36 tier=thorough reach=done,forged-live unwind=12 budget=200 thorough.budget=2400
+func VerifC36CompromiseTwoDeletesDil3d() { verifC36Compromise(2, 3, 3, 4) }
